@@ -542,7 +542,12 @@ func genProgramStyled(rng *rand.Rand, self int, eoas []common.Address, cpc []com
 			case k < 88: // clear a slot (refund)
 				a.Push(0).Push(rng.IntN(4)).Op(vm.SSTORE)
 			case k < 92:
-				a.Op(pick(rng, vm.RETURNDATASIZE, vm.GAS, vm.CALLER, vm.ORIGIN, vm.ADDRESS, vm.CODESIZE, vm.GASPRICE), vm.POP)
+				a.Op(pick(rng, vm.RETURNDATASIZE, vm.GAS, vm.CALLER, vm.ORIGIN, vm.ADDRESS, vm.CODESIZE, vm.GASPRICE, vm.GASPRICE, vm.BASEFEE, vm.CHAINID, vm.NUMBER, vm.TIMESTAMP, vm.GASLIMIT, vm.COINBASE))
+			if rng.IntN(2) == 0 {
+				a.Push(4 + rng.IntN(3)).Op(vm.SSTORE) // what the opcode answered becomes state
+			} else {
+				a.Op(vm.POP)
+			}
 			default: // early end
 				switch rng.IntN(5) {
 				case 0:
